@@ -22,8 +22,15 @@ Record case := {
   c_H : list (nat * nat * nat * nat);
   c_vp0 : Z;
   c_status0 : list vstat;
+  c_signers_ok : bool;     (* GetSigners() of every oracle message was its feeder / operator field *)
   c_steps : list (Z * msg * obs)
 }.
+
+(** short constructors for the generated case files *)
+Definition ob (acc : bool) (r : reason) prev votes feed (vp : Z) : obs :=
+  {| o_acc := acc; o_reason := r; o_prev := prev; o_votes := votes; o_feed := feed; o_vp := vp |}.
+Definition mkcase n tbl vp0 st sg steps : case :=
+  {| c_n := n; c_H := tbl; c_vp0 := vp0; c_status0 := st; c_signers_ok := sg; c_steps := steps |}.
 
 Fixpoint lookup {A} (k : nat) (l : list (nat * A)) : option A :=
   match l with
@@ -68,7 +75,7 @@ Fixpoint H_injective (tbl : list (nat * nat * nat * nat)) : bool :=
 
 Definition violates (c : case) : bool :=
   negb (Pb (c_n c) (H_of (c_H c)) (view_of (init_state c)) (otrace (status_of (c_status0 c)) (c_steps c))
-        && H_injective (c_H c)).
+        && H_injective (c_H c) && c_signers_ok c).
 
 (* ------------------------------------------------------------------ correspondence *)
 
